@@ -464,6 +464,18 @@ def date_source_ok(v, sl, kind):
                 s2 = flow.backward(body, t["args"][0])
                 if any(c.get("c") == "item" and c["def"].endswith("X_AMZ_DATE") for c in s2.consts):
                     return True
+        # `hs.get_unique(X_AMZ_DATE).map(|v| AmzDate::parse(v) ..)`: the header constant flows into the value, the parser sits in a closure
+        # handed to an adaptor on the way
+        if any(c.get("c") == "item" and c["def"].endswith("X_AMZ_DATE") for c in sl.consts):
+            for bi, t, _ in sl.calls:
+                for a in t["args"]:
+                    p = flow.op_place(a)
+                    for l, _pr in (flow.resolve_chain(body, a) or []) if p is not None else []:
+                        for df in body.defs().get(l, []):
+                            if df["kind"] == "assign" and df["rv"]["k"] == "agg" and df["rv"].get("agg") == "closure":
+                                cb = db.body(df["rv"].get("def"))
+                                if cb is not None and any(callee_def(t2).endswith("AmzDate::parse") for x in db.nested(cb) for _, t2 in x.calls()):
+                                    return True
         return False
     if kind == "v4-presigned":
         return any(names[-1:] == ("amz_date",) for names in v.typed_places(sl, "PresignedUrlV4"))
